@@ -84,11 +84,31 @@ def _f12(prop, case, v):
 @classifier('F13')
 def _f13(prop, case, v):
     # append* with a BOM-emitting encoding onto a compressed target writes a
-    # second BOM in mid-stream.
-    return (prop == 'C15' and case.get('fmt') in ('csv', 'tsv') and case.get('appends', 0) >= 1
-            and case.get('encoding') in ('utf-16', 'utf-32', 'utf-8-sig')
-            and case.get('source') in ('gz', 'bz2')
-            and v.get('kind') in ('append-bytes-differ', 'append-roundtrip-differs', 'exception'))
+    # second BOM in mid-stream: the new gzip member / bz2 stream reports
+    # position 0 (or is not seekable), so the text wrapper starts afresh.
+    # Keyed on: csv/tsv, >= 1 append, BOM encoding, gz or bz2 target, and a
+    # BOM character (or the codec's BOM complaint) in what was observed.
+    if prop != 'C15' or case.get('fmt') not in ('csv', 'tsv') or not v.get('appends'):
+        return False
+    if v.get('encoding') not in ('utf-16', 'utf-32', 'utf-8-sig') or v.get('source') not in ('gz', 'bz2'):
+        return False
+    if v.get('kind') not in ('append-bytes-differ', 'append-roundtrip-differs', 'exception'):
+        return False
+    text = repr(v)
+    return '\\ufeff' in text or '\ufeff' in text or 'BOM' in text or 'xff\\xfe' in text
+
+
+@classifier('F17')
+def _f17(prop, case, v):
+    # csv/tsv written to a .bz2 target with utf-16 / utf-32 carries no BOM
+    # (io.TextIOWrapper omits the BOM on a non-seekable stream, and BZ2File is
+    # not seekable for writing), so reading back with the same encoding fails.
+    if prop != 'C15' or case.get('fmt') not in ('csv', 'tsv'):
+        return False
+    if v.get('source') != 'bz2' or v.get('encoding') not in ('utf-16', 'utf-32'):
+        return False
+    return (v.get('kind') == 'exception' and 'does not start with BOM' in str(v.get('detail'))) or \
+        (v.get('kind') in ('file-not-decodable', 'append-bytes-differ') and 'BOM' in repr(v))
 
 
 @classifier('F16')
